@@ -14,7 +14,8 @@ from driver import run_batch
 from wire import to_wire, canon, exc_class
 from props.common import scale, depth_of, schema_tags
 
-THEOREMS = ["c13_eq_spec", "c13_eq_spec_nested", "c13_spec_stable", "c13_cosmetic_type", "c13_cosmetic_field"]
+THEOREMS = ["c13_eq_spec", "c13_eq_spec_nested", "c13_spec_stable", "c13_cosmetic_type", "c13_cosmetic_field",
+            "c13_cosmetic_name", "c13_inherited_namespace"]
 TARGETS = ["Properties.TablesSchema", "Properties.C13"]
 
 
